@@ -1,4 +1,4 @@
-SPECIFICATION Spec
+SPECIFICATION SpecL
 CONSTANT Backend = "sql"
 CONSTRAINT Bound
 VIEW View
